@@ -278,3 +278,20 @@ func c02() {
 		}
 	}
 }
+
+// 64-bit overflow probes: literals just beyond 2^63 / 2^64 and far beyond, where a wrapped product can land above
+// or below the previous partial value (both must be reported as overflow / fall back to float64)
+func init() {
+	for _, s := range []string{"20000000000000000000", "25000000000000000000", "27670116110564327424", "30000000000000000000", "50000000000000000000",
+		"99999999999999999999", "184467440737095516150", "184467440737095516160", "92233720368547758070", "92233720368547758080", "10000000000000000000000",
+		"36893488147419103232", "18446744073709551617", "9223372036854775809", "123456789012345678901234567890"} {
+		jScalarsDocs = append(jScalarsDocs, s, "-"+s)
+	}
+	x := uint64(0x9E3779B97F4A7C15)
+	for i := 0; i < 40; i++ {
+		x ^= x << 13
+		x ^= x >> 7
+		x ^= x << 17
+		jScalarsDocs = append(jScalarsDocs, fmt.Sprintf("%d%d", 1+x%9, x), fmt.Sprintf("-%d%d", 1+x%9, x>>1))
+	}
+}
